@@ -132,3 +132,46 @@ def impose_at(h):
     rest = [q for q in range(n) if q not in index]
     h.check('other-entries-unchanged', ' and '.join('y[%d] == x0[%d]' % (q, q) for q in rest) or 'True', y=y, x0=x0)
     h.check('input-vector-not-modified', 'seq_eq(x, x0)', x=x, x0=x0)
+
+
+MASKS = [((0, 1),), ((0, 1), (0, 2)), ((0, 1), (3, 1)), ((0, 1), (2, 3)), ((0, 1), (3, 1), (2, 4)), ((1, 2), (2, 3))]
+
+
+@contract('C16/constraints.impose_as', ['C16', 'C11'], K + 'impose_as.dec.func', samples=200)
+def impose_as(h):
+    """no offset; masks in the documented form (each pair (i, j) ties entry j to entry i; groups given root first):
+    every tied entry equals its tracked partner (the group shares one of its own values), entries in no pair are unchanged, the caller's vector is not
+    modified.  Masks outside that form and offsets are findings F35 / bounded."""
+    mask = h.choice('mask', MASKS)
+    n = 5
+    x = h.vec('x', n)
+    x0 = h.snapshot(x)
+    f = h.fn('F', ret='real', log='calls')
+    m = h.clist([h.tup(a, b) for a, b in mask]) if h.is_sym() else list(mask)
+    func = h.call(h.call(h.get(K + 'impose_as'), m), f)
+    h.call(func, x)
+    calls = h.log('calls')
+    h.check('decorated-function-called-once', 'len(calls) == 1 and len(calls[0][0]) == n', calls=calls, n=n)
+    y = calls[0][0]
+    # groups: connected components of the pairs; the root is the first index mentioned for the component
+    comp = {}
+    order = []
+    for a, b in mask:
+        ra, rb = comp.get(a), comp.get(b)
+        r = ra if ra is not None else rb if rb is not None else a
+        for v in (a, b):
+            if comp.get(v) is None:
+                comp[v] = r
+                order.append(v)
+        if ra is not None and rb is not None and ra != rb:
+            for v in list(comp):
+                if comp[v] == rb:
+                    comp[v] = ra
+    tied = [(v, r) for v, r in comp.items() if v != r]
+    # (the statement asks for equality with the tracked partner; WHICH member's value the group takes is not demanded)
+    h.check('tied-entries-equal-their-tracked-partner', ' and '.join('y[%d] == y[%d]' % (v, r) for v, r in tied), y=y)
+    h.check('the-common-value-is-one-of-the-groups-own-values',
+            ' and '.join('(%s)' % ' or '.join('y[%d] == x0[%d]' % (r, u) for u in comp if comp[u] == r) for r in set(comp.values())), y=y, x0=x0)
+    rest = [q for q in range(n) if q not in comp]
+    h.check('entries-in-no-pair-unchanged', ' and '.join('y[%d] == x0[%d]' % (q, q) for q in rest) or 'True', y=y, x0=x0)
+    h.check('input-vector-not-modified', 'seq_eq(x, x0)', x=x, x0=x0)
